@@ -190,6 +190,18 @@ func (o *c14Oracle) move(x *c14Iter, m string, k []byte) *c14Pair {
 	panic("bad move")
 }
 
+// moveStale is the contract for Next/Prev on an iterator positioned before the last Reset (its generation is over,
+// D31/D32): the iterator is exhausted in the direction of the move — Next leaves it at the end (a following Prev goes
+// to the last pair), Prev leaves it at the start (a following Next goes to the first pair).
+func (o *c14Oracle) moveStale(x *c14Iter, m string) *c14Pair {
+	if m == "next" {
+		x.pos, x.key = c14EOI, nil
+	} else {
+		x.pos, x.key = c14SOI, nil
+	}
+	return nil
+}
+
 type c14Case struct {
 	Cmp      string   `json:"cmp"`
 	Capacity int      `json:"capacity"`
@@ -235,8 +247,8 @@ func c14ArrState(db *memdb.DB) string {
 	kn, kh := fnv(v.FieldByName("kvData"), true)
 	nn, nh := fnv(v.FieldByName("nodeData"), false)
 	_, ph := fnv(v.FieldByName("prevNode"), false)
-	return fmt.Sprintf("n=%d size=%d mh=%d kv=%d:%016x nodes=%d:%016x prev=%016x",
-		v.FieldByName("n").Int(), v.FieldByName("kvSize").Int(), v.FieldByName("maxHeight").Int(), kn, kh, nn, nh, ph)
+	return fmt.Sprintf("n=%d size=%d mh=%d gen=%d kv=%d:%016x nodes=%d:%016x prev=%016x",
+		v.FieldByName("n").Int(), v.FieldByName("kvSize").Int(), v.FieldByName("maxHeight").Int(), v.FieldByName("gen").Int(), kn, kh, nn, nh, ph)
 }
 
 // c14IterNode returns dbIter.node of an iterator created by memdb.DB.NewIterator.
@@ -365,7 +377,7 @@ func c14Diff(c *Ctx, r *rng.R, caseNo int) {
 			c.Res.Count("del", exp)
 			if want {
 				for _, x := range its {
-					if x.pos == c14At && cmp.Compare(x.key, k) == 0 {
+					if x.pos == c14At && !x.staleReset && cmp.Compare(x.key, k) == 0 {
 						x.staleDel = true
 					}
 				}
@@ -444,6 +456,7 @@ func c14Diff(c *Ctx, r *rng.R, caseNo int) {
 			or.pairs, or.used = nil, 0
 			hs.reset()
 			for _, x := range its {
+				x.staleDel = false
 				if x.pos == c14At {
 					x.staleReset = true
 				}
@@ -509,10 +522,13 @@ func c14Diff(c *Ctx, r *rng.R, caseNo int) {
 			default:
 				m = "prev"
 			}
-			// moves that the contract does not cover (see the rule): re-position instead
-			if x.staleReset && (m == "next" || m == "prev") {
-				m = [...]string{"first", "last", "seek"}[r.Intn(3)]
+			// Next/Prev on an iterator positioned before a Reset: covered since the generation counter (D31)
+			resetStale := x.staleReset && (m == "next" || m == "prev")
+			if resetStale {
+				c.Res.Count("reset-stale", m)
 			}
+			// Next from a deleted node follows the dead node's pointer: only the array-level model has dead nodes
+			// (exercised by c14StaleEpilogue); in the shared stream the iterator is re-positioned
 			if x.staleDel && m == "next" {
 				m = [...]string{"first", "last", "seek", "prev"}[r.Intn(4)]
 			}
@@ -536,7 +552,12 @@ func c14Diff(c *Ctx, r *rng.R, caseNo int) {
 				ok = x.it.Prev()
 			}
 			x.staleDel, x.staleReset = false, false
-			want := or.move(x, m, k)
+			var want *c14Pair
+			if resetStale {
+				want = or.moveStale(x, m)
+			} else {
+				want = or.move(x, m, k)
+			}
 			exp := "false"
 			if ok {
 				exp = "true " + gen.Hex(x.it.Key()) + " " + gen.Hex(x.it.Value())
@@ -613,6 +634,17 @@ func c14StaleEpilogue(c *Ctx, r *rng.R, db *memdb.DB, or *c14Oracle, arr func(op
 		}
 		or.del(cur)
 		arr("del "+gen.Hex(cur), "ok")
+		if i, _ := or.idx(cur); i < len(or.pairs) && r.Chance(1, 2) {
+			// the successor dies too: Next from the dead node lands on another dead node and yields its (deleted) pair
+			succ := cp(or.pairs[i].k)
+			if err := db.Delete(cp(succ)); err != nil {
+				c.Res.Violate("memdb.Delete:error", err.Error(), nil)
+				return
+			}
+			or.del(succ)
+			arr("del "+gen.Hex(succ), "ok")
+			c.Res.Count("stale-move", "successor-deleted")
+		}
 		for m := r.Intn(3); m > 0; m-- { // keys put while the iterator sits on the dead node
 			pk, pv := key(), val()
 			if err := db.Put(cp(pk), cp(pv)); err != nil {
@@ -704,6 +736,8 @@ type c14Conc struct {
 	Puts    int    `json:"puts"`
 	Cmp     string `json:"cmp"`
 	Hot     bool   `json:"hot"`
+	Deletes bool   `json:"deletes"`
+	Resets  bool   `json:"resets"`
 }
 
 func c14Concurrent(c *Ctx, r *rng.R, round int) {
@@ -744,6 +778,21 @@ func c14Concurrent(c *Ctx, r *rng.R, round int) {
 	var done int32
 	var stop int32
 	var viol int32
+	// The writer also deletes (keys with i%4 != 0; the others are "stable": never deleted) and, rarely, resets.
+	// resetSeq is a sequence lock around Reset: odd while a Reset is in progress, +2 per Reset.  A reader that sees
+	// the same even value before and after a stretch of its own calls knows that no Reset overlapped it; a reader
+	// that sees it grow by a whole Reset between two moves knows the iterator's generation is over.
+	// verAtReset[i] = the last version of key i issued before the latest Reset: a pair yielded inside a generation
+	// must have been put in that generation (C14.concurrent_readers: "put since the last Reset").
+	deletes := round%2 == 1 || hot
+	resets := round%4 >= 2
+	rp.Deletes, rp.Resets = deletes, resets
+	var resetSeq uint32
+	verAtReset := make([]int32, nkeys)
+	stable := func(i int) bool { return i%4 == 0 }
+	var nDeletes, nResets, nExhausted, nDeadYield int64
+	live := make([]bool, nkeys)   // writer-owned; read after the writer has finished
+	lastVer := make([]int, nkeys) // writer-owned
 	violate := func(sig, msg string) {
 		if atomic.AddInt32(&viol, 1) <= 3 {
 			c.Res.Violate("memdb.concurrent:"+sig, msg, rp)
@@ -760,7 +809,8 @@ func c14Concurrent(c *Ctx, r *rng.R, round int) {
 		}()
 		f()
 	}
-	checkPair := func(who string, k, v []byte, seen map[int]int) bool {
+	// s1 = resetSeq read before the call that returned the pair (useGen: check "put since the last Reset")
+	checkPair := func(who string, k, v []byte, seen map[int]int, s1 uint32, useGen bool) bool {
 		i, known := index[string(k)]
 		if !known {
 			violate("unknown-key", fmt.Sprintf("%s: key %x was never stored", who, k))
@@ -770,6 +820,13 @@ func c14Concurrent(c *Ctx, r *rng.R, round int) {
 		if !ok || kh != fmt.Sprintf("%x", k) || ver < 1 || ver > int(atomic.LoadInt32(&started[i])) {
 			violate("unknown-pair", fmt.Sprintf("%s: pair %x=%q was never stored (versions issued for the key: %d)", who, k, v, atomic.LoadInt32(&started[i])))
 			return false
+		}
+		if useGen {
+			v0 := int(atomic.LoadInt32(&verAtReset[i]))
+			if s2 := atomic.LoadUint32(&resetSeq); s1 == s2 && s1%2 == 0 && ver <= v0 {
+				violate("pair-of-older-generation", fmt.Sprintf("%s: pair %x=%q (version %d) was put before the last Reset (last version before it: %d)", who, k, v, ver, v0))
+				return false
+			}
 		}
 		if seen != nil {
 			if ver < seen[i] {
@@ -787,18 +844,51 @@ func c14Concurrent(c *Ctx, r *rng.R, round int) {
 		defer wg.Done()
 		wr := r.Fork()
 		vers := make([]int, nkeys)
+		inGen := make([]bool, nkeys) // the key has been put since the last Reset
 		for n := 0; n < nputs && atomic.LoadInt32(&stop) == 0; n++ {
 			i := wr.Intn(nkeys)
+			switch {
+			case resets && n > 0 && wr.Intn(nputs/3+1) == 0:
+				orderMu.Lock()
+				atomic.AddUint32(&resetSeq, 1)
+				order = order[:0]
+				atomic.StoreInt32(&done, 0)
+				orderMu.Unlock()
+				for j := range vers {
+					atomic.StoreInt32(&verAtReset[j], int32(vers[j]))
+				}
+				db.Reset()
+				atomic.AddUint32(&resetSeq, 1)
+				for j := range inGen {
+					inGen[j] = false
+					live[j] = false
+				}
+				atomic.AddInt64(&nResets, 1)
+				continue
+			case deletes && !stable(i) && wr.Intn(5) == 0:
+				err := db.Delete(keys[i])
+				if (err == nil) != live[i] || (err != nil && err != memdb.ErrNotFound) {
+					violate("delete-presence", fmt.Sprintf("Delete(%x) err=%v, the writer's own record says present=%v", keys[i], err, live[i]))
+				}
+				live[i] = false
+				atomic.AddInt64(&nDeletes, 1)
+				continue
+			}
 			vers[i]++
 			atomic.StoreInt32(&started[i], int32(vers[i]))
 			if err := db.Put(keys[i], c14Val(keys[i], vers[i], wr.Intn(maxPad))); err != nil {
 				violate("put-error", err.Error())
 			}
-			if vers[i] == 1 {
-				orderMu.Lock()
-				order = append(order, int32(i))
-				orderMu.Unlock()
-				atomic.AddInt32(&done, 1)
+			live[i] = true
+			lastVer[i] = vers[i]
+			if !inGen[i] {
+				inGen[i] = true
+				if stable(i) {
+					orderMu.Lock()
+					order = append(order, int32(i))
+					orderMu.Unlock()
+					atomic.AddInt32(&done, 1)
+				}
 			}
 			if n%64 == 0 {
 				runtime.Gosched()
@@ -823,18 +913,21 @@ func c14Concurrent(c *Ctx, r *rng.R, round int) {
 				case 0, 1: // Get / Contains
 					for n := 0; n < 50; n++ {
 						i := rr.Intn(nkeys)
-						before := atomic.LoadInt32(&done) // first Puts that had returned before the call
+						s1 := atomic.LoadUint32(&resetSeq)
+						before := atomic.LoadInt32(&done) // first Puts (of stable keys, in this generation) that had returned before the call
 						v, err := db.Get(keys[i])
 						atomic.AddInt64(&nGets, 1)
 						if err == nil {
-							checkPair(who+" Get", keys[i], v, seen)
+							checkPair(who+" Get", keys[i], v, seen, s1, true)
 						} else if err != memdb.ErrNotFound {
 							violate("get-error", err.Error())
 						} else {
 							orderMu.Lock()
-							for _, x := range order[:before] {
-								if int(x) == i {
-									violate("get-lost", fmt.Sprintf("%s: Get(%x) not found after its Put had returned", who, keys[i]))
+							if atomic.LoadUint32(&resetSeq) == s1 && s1%2 == 0 { // no Reset since: order only grew
+								for _, x := range order[:before] {
+									if int(x) == i {
+										violate("get-lost", fmt.Sprintf("%s: Get(%x) not found after its Put had returned (the key is never deleted, no Reset since)", who, keys[i]))
+									}
 								}
 							}
 							orderMu.Unlock()
@@ -846,13 +939,14 @@ func c14Concurrent(c *Ctx, r *rng.R, round int) {
 						if rr.Chance(1, 2) {
 							k = gen.Key(rr, 6)
 						}
+						s1 := atomic.LoadUint32(&resetSeq)
 						rk, v, err := db.Find(k)
 						atomic.AddInt64(&nFinds, 1)
 						if err == nil {
 							if cmp.Compare(rk, k) < 0 {
 								violate("find-order", fmt.Sprintf("%s: Find(%x) returned the smaller key %x", who, k, rk))
 							}
-							checkPair(who+" Find", rk, v, nil)
+							checkPair(who+" Find", rk, v, nil, s1, true)
 						} else if err != memdb.ErrNotFound {
 							violate("find-error", err.Error())
 						}
@@ -876,15 +970,46 @@ func c14Concurrent(c *Ctx, r *rng.R, round int) {
 						}
 						rg = &util.Range{Start: start, Limit: limit}
 					}
+					sScan := atomic.LoadUint32(&resetSeq)
 					n0 := int(atomic.LoadInt32(&done))
 					it := db.NewIterator(rg)
 					got := map[int]bool{}
 					var last []byte
 					full := rr.Chance(2, 3)
 					steps := 0
-					for it.Next() {
+					// sA = resetSeq read after the previous successful move, sB = read before the next one: when both are
+					// even and sB >= sA+2 a whole Reset lies between the two moves, the iterator's generation is over and the
+					// move must find it exhausted (C14.concurrent_readers, D31/D32); otherwise Next is strictly increasing
+					var sA uint32 = 1
+					// waitReset: now and then a reader sits on a pair until the writer has reset the table
+					waitReset := func() {
+						if !resets || sA%2 != 0 || !rr.Chance(1, 40) {
+							return
+						}
+						for spin := 0; spin < 20000 && atomic.LoadInt32(&stop) == 0; spin++ {
+							if s := atomic.LoadUint32(&resetSeq); s%2 == 0 && s >= sA+2 {
+								return
+							}
+							runtime.Gosched()
+						}
+					}
+					for {
+						if last != nil {
+							waitReset()
+						}
+						sB := atomic.LoadUint32(&resetSeq)
+						if !it.Next() {
+							if last != nil && sA%2 == 0 && sB%2 == 0 && sB >= sA+2 {
+								atomic.AddInt64(&nExhausted, 1)
+							}
+							break
+						}
 						k, v := it.Key(), it.Value()
 						atomic.AddInt64(&nYield, 1)
+						if last != nil && sA%2 == 0 && sB%2 == 0 && sB >= sA+2 {
+							violate("next-after-reset", fmt.Sprintf("%s: the table was Reset after Next yielded %x, the following Next yielded %x instead of finding the iterator exhausted", who, last, k))
+							break
+						}
 						if last != nil && cmp.Compare(last, k) >= 0 {
 							violate("next-order", fmt.Sprintf("%s: Next yielded %x after %x", who, k, last))
 							break
@@ -893,9 +1018,10 @@ func c14Concurrent(c *Ctx, r *rng.R, round int) {
 							violate("out-of-range", fmt.Sprintf("%s: iterator over [%x,%x) yielded %x", who, start, limit, k))
 							break
 						}
-						if !checkPair(who+" Next", k, v, nil) {
+						if !checkPair(who+" Next", k, v, nil, sB, true) {
 							break
 						}
+						sA = atomic.LoadUint32(&resetSeq)
 						got[index[string(k)]] = true
 						last = cp(k)
 						steps++
@@ -903,10 +1029,14 @@ func c14Concurrent(c *Ctx, r *rng.R, round int) {
 							break
 						}
 					}
-					if full && atomic.LoadInt32(&stop) != 1 {
-						// every key whose first Put had returned before the iterator was created is yielded
+					if full && atomic.LoadInt32(&stop) != 1 && sScan%2 == 0 {
+						// every key that is never deleted and whose first Put (of this generation) had returned before the
+						// iterator was created is yielded — unless a Reset overlapped the scan
 						orderMu.Lock()
-						pre := append([]int32(nil), order[:n0]...)
+						var pre []int32
+						if atomic.LoadUint32(&resetSeq) == sScan {
+							pre = append(pre, order[:n0]...)
+						}
 						orderMu.Unlock()
 						for _, i := range pre {
 							k := keys[i]
@@ -919,15 +1049,41 @@ func c14Concurrent(c *Ctx, r *rng.R, round int) {
 					} else if it.Valid() {
 						// walk back from where we stopped: strictly decreasing
 						prev := cp(it.Key())
-						for n := 0; n < 30 && it.Prev(); n++ {
+						sA := atomic.LoadUint32(&resetSeq)
+						for n := 0; n < 30; n++ {
+							if resets && sA%2 == 0 && rr.Chance(1, 40) {
+								for spin := 0; spin < 20000 && atomic.LoadInt32(&stop) == 0; spin++ {
+									if s := atomic.LoadUint32(&resetSeq); s%2 == 0 && s >= sA+2 {
+										break
+									}
+									runtime.Gosched()
+								}
+							}
+							sB := atomic.LoadUint32(&resetSeq)
+							wholeReset := sA%2 == 0 && sB%2 == 0 && sB >= sA+2
+							if !it.Prev() {
+								if wholeReset {
+									atomic.AddInt64(&nExhausted, 1)
+								}
+								break
+							}
 							atomic.AddInt64(&nBack, 1)
+							if wholeReset {
+								violate("prev-after-reset", fmt.Sprintf("%s: the table was Reset after the iterator was at %x, the following Prev yielded %x instead of finding the iterator exhausted", who, prev, it.Key()))
+								break
+							}
 							if cmp.Compare(it.Key(), prev) >= 0 {
 								violate("prev-order", fmt.Sprintf("%s: Prev yielded %x after %x", who, it.Key(), prev))
 								break
 							}
-							if !checkPair(who+" Prev", it.Key(), it.Value(), nil) {
+							if k := it.Key(); (start != nil && cmp.Compare(k, start) < 0) || (limit != nil && cmp.Compare(k, limit) >= 0) {
+								violate("out-of-range", fmt.Sprintf("%s: iterator over [%x,%x) yielded %x on Prev", who, start, limit, k))
 								break
 							}
+							if !checkPair(who+" Prev", it.Key(), it.Value(), nil, sB, true) {
+								break
+							}
+							sA = atomic.LoadUint32(&resetSeq)
 							prev = cp(it.Key())
 						}
 					}
@@ -950,25 +1106,24 @@ func c14Concurrent(c *Ctx, r *rng.R, round int) {
 		c.Hung = true
 		return
 	}
-	// afterwards the table is exactly the last version of every key put
+	// afterwards the table holds exactly the keys whose last operation since the last Reset was a Put, at their last version
 	if atomic.LoadInt32(&viol) == 0 {
 		n := 0
 		for i, k := range keys {
-			st := int(atomic.LoadInt32(&started[i]))
 			v, err := db.Get(k)
-			if st == 0 {
+			if !live[i] {
 				if err != memdb.ErrNotFound {
-					violate("final-extra", fmt.Sprintf("key %x never put but present", k))
+					violate("final-extra", fmt.Sprintf("key %x deleted, reset away or never put, but present (%q, err=%v)", k, v, err))
 				}
 				continue
 			}
 			n++
-			if _, ver, ok := c14ParseVal(v); err != nil || !ok || ver != st {
-				violate("final-version", fmt.Sprintf("key %x: final value %q err=%v, last version put %d", k, v, err, st))
+			if _, ver, ok := c14ParseVal(v); err != nil || !ok || ver != lastVer[i] {
+				violate("final-version", fmt.Sprintf("key %x: final value %q err=%v, last version put %d", k, v, err, lastVer[i]))
 			}
 		}
 		if db.Len() != n {
-			violate("final-len", fmt.Sprintf("Len()=%d after putting %d distinct keys", db.Len(), n))
+			violate("final-len", fmt.Sprintf("Len()=%d, %d keys are live", db.Len(), n))
 		}
 	}
 	c.Res.Eval(fmt.Sprintf("conc/%d/%d/%d/%d", c.Seed, round, nread, nkeys), atomic.LoadInt64(&nYield) > 0)
@@ -977,6 +1132,10 @@ func c14Concurrent(c *Ctx, r *rng.R, round int) {
 	c.Res.CountN("conc", "full-scans", int(nScans))
 	c.Res.CountN("conc", "next-yields", int(nYield))
 	c.Res.CountN("conc", "prev-yields", int(nBack))
+	c.Res.CountN("conc", "deletes", int(nDeletes))
+	c.Res.CountN("conc", "resets", int(nResets))
+	c.Res.CountN("conc", "exhausted-after-reset", int(nExhausted))
+	_ = nDeadYield
 	c.Res.Count("conc-readers", strconv.Itoa(nread))
 	if round == 0 {
 		c.Res.Sample(map[string]interface{}{"concurrent": rp, "gets": nGets, "finds": nFinds, "full_scans": nScans, "pairs_yielded_by_next": nYield})
@@ -984,7 +1143,7 @@ func c14Concurrent(c *Ctx, r *rng.R, round int) {
 }
 
 func runC14(c *Ctx) {
-	c.Res.Rule = "(a) random op lists on memdb.New(cmp, capacity) for bytewise/lenfirst/reverse user comparers and the internal-key comparer over them: Put (new keys and overwrites that change the value length; arguments poisoned afterwards), Delete of present/absent keys, Get/Find/Contains, Len/Size/Capacity-Free, Reset and reuse, up to 4 live iterators (nil range, half-open, inverted and empty ranges) moved at random BETWEEN the mutations; every answer is compared with a sorted-slice oracle kept in Go (key-based cursor for iterators) and, line by line, with the ideal Lean model and with the array-level Lean model GoLevel.MemArr (tower heights reproduced from memdb's fixed seed); the array-level model is also compared with the private arrays of the table (n, kvSize, maxHeight, len and FNV of kvData/nodeData/prevNode after every Len/Reset and at the end of the case; the node index of the iterator after every move), and at the end of every case it answers Next/Prev from a node that was just deleted (expected = what the Go iterator does). Not generated because the contract does not cover it: Next on an iterator whose current node was deleted, Next/Prev on an iterator after Reset (both are re-positioned by First/Last/Seek first). One evaluation per op; non-trivial = the table was non-empty when the op ran; distinct by (comparer, op, key, table size). (b) one writer (Put of new keys and overwrites, values carry key and version) with 4-16 reader goroutines doing Get/Find and ranged iterator walks: no panic, Next strictly increasing, Prev strictly decreasing, inside the range, every pair yielded was issued by the writer with that version, versions read by Get never go back, a full scan misses no key stored before it began, final contents exact. One evaluation per run; non-trivial = iterators yielded pairs while the writer ran. The race detector is not available inside vh (no -race build of the harness): data races that do not corrupt an answer are not detected here."
+	c.Res.Rule = "(a) random op lists on memdb.New(cmp, capacity) for bytewise/lenfirst/reverse user comparers and the internal-key comparer over them: Put (new keys and overwrites that change the value length; arguments poisoned afterwards), Delete of present/absent keys, Get/Find/Contains, Len/Size/Capacity-Free, Reset and reuse, up to 4 live iterators (nil range, half-open, inverted and empty ranges) moved at random BETWEEN the mutations; every answer is compared with a sorted-slice oracle kept in Go (key-based cursor for iterators) and, line by line, with the ideal Lean model and with the array-level Lean model GoLevel.MemArr (tower heights reproduced from memdb's fixed seed); the array-level model is also compared with the private arrays of the table (n, kvSize, maxHeight, len and FNV of kvData/nodeData/prevNode after every Len/Reset and at the end of the case; the node index of the iterator after every move), and at the end of every case it answers Next/Prev from a node that was just deleted (expected = what the Go iterator does). Next/Prev on an iterator that was positioned before a Reset are generated (generation counter, D31/D32): the contract is that the iterator is exhausted in the direction of the move (oracle: c14Oracle.moveStale). Next on an iterator whose current node was deleted follows the dead node's pointer: the ideal Lean model has no dead nodes, so in the shared stream that iterator is re-positioned first and the move is exercised at the end of every case against the array-level model only. One evaluation per op; non-trivial = the table was non-empty when the op ran; distinct by (comparer, op, key, table size). (b) one writer (Put of new keys and overwrites, values carry key and version; in half of the rounds also Delete of the keys that are not marked stable, in half of them also a rare Reset, bracketed by a sequence counter the readers can see) with 4-16 reader goroutines doing Get/Find and ranged iterator walks; the oracle is C14.concurrent_readers: no panic; every pair yielded was issued by the writer with that version (it may have been deleted since: iterators walk on through dead nodes) and, when no Reset overlapped the call, was put since the last Reset; every yielded key inside the range, on Next and on Prev; Next strictly increasing and Prev strictly decreasing as long as no Reset intervenes; when a whole Reset lies between two moves the second move finds the iterator exhausted; versions read by Get never go back; a key that is never deleted is found by Get once its Put has returned and is not missed by a full scan that began after it (no Reset in between); final contents exact (keys deleted or reset away are gone). One evaluation per run; non-trivial = iterators yielded pairs while the writer ran. The race detector is not available inside vh (no -race build of the harness): data races that do not corrupt an answer are not detected here."
 	ncases := c.Scale(4000, 24000)
 	for i := 0; i < ncases && c.TimeLeft(); i++ {
 		r := c.R.Fork()
